@@ -21,7 +21,9 @@ RULE = ("page: collection tables of 0-200 rows with timestamp ties of every mult
         "and range, 64KiB lines, non-200 status, dropped connections); prod: volume outputs with failures; run: "
         "Balancer.Run with a failure of each kind at every single request, and `gate` scenarios: a failing index request "
         "interleaved at statement granularity (instrumented GetCurrentState) with the collection processor/scanner "
-        "held at sampled positions. Non-trivial = page case with >= 2 rows, "
+        "held at sampled positions; gcs: single executions of the real GetCurrentState (index / addCollection / "
+        "collections-request failures, controlled interleavings) whose per-goroutine statement paths must be an "
+        "execution of the small-step model. Non-trivial = page case with >= 2 rows, "
         "cut/abort case with >= 1 line, run case; distinct = distinct case line")
 ASSUMPTIONS = [
     "the collections list endpoint answers a page request atomically with the first `limit` (or fewer, but at "
@@ -73,7 +75,7 @@ def overlay_generated(repo, workdir):
 
 def channel(case):
     op = case.split(" ", 1)[0]
-    if op in ("page", "run"):
+    if op in ("page", "run", "gcs"):
         return "kb"
     if op in ("idx", "idxcut", "idxabort"):
         return "arv"
@@ -326,6 +328,37 @@ def _gen_prod(rng):
     return "prod " + (";".join(vols) or "-")
 
 
+def _gen_gcs(rng):
+    """One controlled execution of GetCurrentState: which failures are injected (an index request, a
+    malformed collection, a collections request) and where the collection processor / scanner is held
+    and the failing index worker paused."""
+    nsvc = rng.randint(1, 4)
+    ncoll = rng.choice([0, 1, 2, 3, 4, 6])
+    ps = rng.choice([0, 1, 2, 3])
+    bufs = rng.choice([1, 2, 4])
+    idx = bad = page = "-"
+    other = hold = pause = 0
+    r = rng.random()
+    if r < 0.15:
+        pass
+    elif r < 0.65:
+        idx = rng.randrange(nsvc)
+        if rng.random() < 0.85:
+            other = rng.choice([1, 1, 2])
+            hold = rng.randint(1, 4 + 3 * ncoll)
+            pause = rng.randint(1, 4)
+    elif r < 0.8:
+        bad = rng.randint(0, max(0, ncoll))
+    else:
+        page = rng.randint(0, 6)
+    if rng.random() < 0.15:
+        if bad == "-":
+            bad = rng.randint(0, max(0, ncoll))
+        elif page == "-":
+            page = rng.randint(0, 6)
+    return f"gcs {nsvc} {ncoll} {ps} {bufs} {idx} {bad} {page} {other} {hold} {pause}"
+
+
 def generate(rng, tier):
     big = tier != "quick"
     cases = []
@@ -367,6 +400,8 @@ def generate(rng, tier):
         ncoll = rng.choice([0, 1, 2, 3, 5])
         ps = rng.choice([0, 1, 2, 3])
         cases.append(f"run {flags} {nsvc} {ncoll} {ps} {kind}")
+    for _ in range(100 if not big else 1500):
+        cases.append(_gen_gcs(rng))
     # interleavings of a failing index request with the collection pipeline of GetCurrentState
     for _ in range(3 if not big else 16):
         flags = rng.choice(["01011", "00011", "00010", "00001", "10011"])
@@ -434,10 +469,42 @@ def _compare_run(case, impl, model):
     return True
 
 
+_ACC = {}
+
+
+def _gcs_fields(impl):
+    d = {}
+    for part in impl.split("|"):
+        if "=" not in part:
+            return None
+        k, v = part.split("=", 1)
+        d[k] = v
+    return d if {"w", "p", "s", "res", "creq"} <= set(d) else None
+
+
+def _gcs_accepts(case, impl):
+    """Is the observed execution (per-goroutine statement paths + result) an execution of the Lean
+    small-step model of GetCurrentState?  Decided by the model executable (op gcsacc)."""
+    d = _gcs_fields(impl)
+    if d is None:
+        return False
+    line = f"gcsacc {case.split(' ')[4]} {d['w'] or '-'} {d['p']} {d['s']} {d['res']}"
+    if line not in _ACC:
+        exe = os.path.join(VERIF, "lean", ".lake", "build", "bin", "arvmodel_c06")
+        try:
+            p = subprocess.run([exe], input=line + "\n", stdout=subprocess.PIPE, text=True, timeout=300)
+            _ACC[line] = p.stdout.strip()
+        except Exception as e:
+            _ACC[line] = "acceptor-failed " + str(e)
+    return _ACC[line] == "accept"
+
+
 def compare(case, impl, model):
     op = case.split(" ", 1)[0]
     if model == "bad-op" or impl == "bad-op":
         return impl == model
+    if op == "gcs":
+        return model == "gcs" and _gcs_accepts(case, impl)
     if op in ("idxabort", "gidxabort"):
         a, b = impl.split(","), model.split(",")
         return len(a) == len(b) and all(x.startswith("e") for x in a)
@@ -588,6 +655,20 @@ def oracle(case, impl):
         if allok and body != b"".join(unhx(v[0]) for v in vols) + b"\n":
             return "handleIndex did not emit every volume's index followed by one blank line"
         return None
+    if op == "gcs":
+        d = _gcs_fields(impl)
+        if d is None:
+            return "driver could not observe the behaviour: " + impl[:200]
+        injected = []
+        if f[5] != "-":
+            injected.append(f"index request of server {f[5]}")
+        if f[6] != "-" and int(f[6]) < int(f[2]):
+            injected.append(f"addCollection of collection {f[6]}")
+        if f[7] != "-" and int(f[7]) < int(d["creq"]):
+            injected.append(f"collections request {f[7]}")
+        if injected and d["res"] != "1":
+            return "GetCurrentState returned nil although " + " and ".join(injected) + " failed"
+        return None
     if op == "run":
         toks = _run_tokens(impl)
         if toks is None:
@@ -625,7 +706,9 @@ def nontrivial_key(case, impl):
 
 
 def describe(cases, impl):
-    d = {"ops": {}, "page": {}, "run_sweeps": 0, "cut_points": 0}
+    d = {"ops": {}, "page": {}, "run_sweeps": 0, "cut_points": 0,
+         "gcs": {"no_failure": 0, "index_failure_scheduled": 0, "index_failure_free": 0, "bad_collection": 0,
+                 "page_failure": 0, "result_error": 0, "result_nil": 0}}
     pg = {"rows_0": 0, "rows_1_12": 0, "rows_13_60": 0, "rows_61_200": 0, "tie_run_gt_3x_page": 0,
           "tie_run_gt_page": 0, "with_schedule": 0, "with_request_failure": 0, "with_callback_failure": 0,
           "null_modified_at": 0, "server_max_page": 0, "server_cap": 0,
@@ -657,6 +740,18 @@ def describe(cases, impl):
                         flt = e.split(":")[4]
                         k = "first" if flt == "-" else "ge" if ">=" in flt else "eq" if "modified_at=" in flt else "gt"
                         pg["mode_requests"][k] += 1
+        elif f[0] == "gcs":
+            g = d["gcs"]
+            if f[5] == "-" and f[6] == "-" and f[7] == "-":
+                g["no_failure"] += 1
+            if f[5] != "-":
+                g["index_failure_scheduled" if f[8] != "0" else "index_failure_free"] += 1
+            g["bad_collection"] += f[6] != "-"
+            g["page_failure"] += f[7] != "-"
+            if r and "res=1" in r:
+                g["result_error"] += 1
+            elif r and "res=0" in r:
+                g["result_nil"] += 1
         elif f[0] == "run" and r:
             d["run_sweeps"] += r.count(",") + 1
         elif f[0] in ("idxcut", "gidxcut", "idxabort", "gidxabort") and r:
@@ -686,6 +781,9 @@ def neighbours(case, rng):
                     g[3] = ",".join(rows)
             out.append(" ".join(g))
         out.append(_gen_page(rng, False))
+    elif f[0] == "gcs":
+        out.append(case)
+        out += [_gen_gcs(rng) for _ in range(3)]
     elif f[0] == "run":
         out.append(case)
         out.append(f"run {f[1]} {rng.randint(1, 4)} {rng.randint(0, 4)} {rng.randint(0, 3)} {f[5]}")
